@@ -323,7 +323,7 @@ class C11(Check):
         for l in case:
             if not l.startswith('t '):
                 continue
-            dm = dx = 0
+            dm = dx = cs = 0
             for o in l.split()[2:]:
                 if o == 'lock':
                     dx += 1
@@ -335,10 +335,18 @@ class C11(Check):
                     dm -= 1
                 elif o in ('trylock', 'montry') or o.startswith('monwait'):
                     return False
-                elif o in ('csenter', 'csleave') and dx <= 0 and dm <= 0:
+                elif o == 'csenter':
+                    if cs != 0 or (dx <= 0 and dm <= 0):
+                        return False
+                    cs = 1
+                elif o == 'csleave':
+                    if cs != 1:
+                        return False
+                    cs = 0
+                if dx < 0 or dm < 0 or (cs == 1 and dx <= 0 and dm <= 0):
                     return False
-                if dx < 0 or dm < 0:
-                    return False
+            if cs != 0:
+                return False
         mixes = any(o in ('lock',) for l in case if l.startswith('t ') for o in l.split()[2:]) and \
             any(o in ('monlock',) for l in case if l.startswith('t ') for o in l.split()[2:])
         return not mixes
